@@ -157,7 +157,7 @@ func c09Snapshot(c *Check) {
 	if promotable != nil && hasSnap != nil {
 		pfi := p.Info(promotable)
 		for _, ret := range returnsOf(pfi) {
-			code := pfi.valueBF(ret.Results[0], 0)
+			code := pfi.valueBF(pfi.RetVal(ret, 0), 0)
 			rr := pfi.Sym(promotable.Params[0])
 			snap := bfSym(CallSym(hasSnap, FieldOf(rr, p.Field("raft", "raft", "raftLog"))))
 			ok, why := bfImplies(code, bfNot(snap))
